@@ -66,6 +66,31 @@ def chain_menu(cols, roles, depth, hist):
     return items
 
 
+def prune_menu(cols, roles, depth, hist):
+    """an aggregating / constant step, then a join or stacking, then a step that keeps only the other side's
+    (or none of the first step's) columns: the SQL translation prunes with 'using' sets, the rows must survive"""
+    K, N = menus._pick(cols, roles)
+    if depth == 0:
+        return [
+            {"op": "project", "ops": {"s": M("sum", C("x"))}, "group_by": []},
+            {"op": "project", "ops": {"s": M("sum", C("x"))}, "group_by": ["g"]},
+            {"op": "extend", "ops": {"z": V(1)}},
+            {"op": "select_rows", "expr": O(">", C("x"), V(1))},
+        ]
+    if depth == 1:
+        items = [{"op": "natural_join", "b": menus.E_HIST, "on": [], "jointype": jt} for jt in ("CROSS", "LEFT", "INNER")]
+        if "g" in cols:
+            items += [{"op": "natural_join", "b": menus.E_HIST, "on": ["g"], "jointype": jt} for jt in ("LEFT", "RIGHT")]
+        return items
+    if depth == 2:
+        own = [c for c in cols if c in ("w",)]
+        items = [{"op": "select_columns", "columns": ["w"]}] if own else []
+        items.append({"op": "project", "ops": {"n": F("_size")}, "group_by": []})
+        items.append({"op": "extend", "ops": {c: V(0) for c in cols if c != "w"}} if len(cols) > 1 else {"op": "extend", "ops": {"q": V(0)}})
+        return items
+    return []
+
+
 def work(hists, cfg, open_ids):
     kd, ke = cfg["kd"], cfg["ke"]
     part = core.Part(open_ids)
@@ -120,6 +145,14 @@ def run(tier):
         st["states"] += len(add3)
         st["transitions"] += s3["transitions"]
         st["confluences"] += s3["confluences"]
+    ex4 = explorer.Explorer(prune_menu)
+    st4 = ex4.run(3)
+    seen_h4 = {H.hist_key(h) for h in hists}
+    add4 = [s.hist for s in st4 if H.hist_key(s.hist) not in seen_h4]
+    hists += add4
+    extra.update({"prune_slice_new_states": len(add4)})
+    st["states"] += len(add4)
+    st["transitions"] += ex4.stats()["transitions"]
     hists = core.rotate(hists, run.seed)
     open_ids = list(run.open_findings)
     for p in core.pmap(work, [(c, cfg, open_ids) for c in core.chunks(hists, 40)]):
@@ -139,7 +172,7 @@ def run(tier):
         exhaustive=True,
         rule=f"all pipelines reachable in <= {cfg['depth']} builder calls over the core menu" + (" (quick tier: the first call from a thinner one-per-shape selection of the menu, every later call from the full menu)" if tier == "quick" else "")
         + (f" plus <= {cfg['slice_depth']} calls over the SQL-translation slice" if cfg["slice_depth"] else "")
-        + f" plus <= {cfg['chain_depth']} calls over the extend-chain slice (plain / windowed / ordered extends creating, reading and overwriting each other's columns)"
+        + f" plus <= {cfg['chain_depth']} calls over the extend-chain slice (plain / windowed / ordered extends creating, reading and overwriting each other's columns) and 3 calls over the pruning slice (aggregate or constant step, join, then a step keeping only the other side's columns)"
         + f", each on all multisets of <= {cfg['kd']} rows over the {len(cfg['d_rows'])}-row alphabet of d (and <= {cfg['ke']} rows over the {len(cfg['e_rows'])}-row alphabet of e when read); a case is one (pipeline, input) pair executed on Pandas and on SQLite",
         extra=extra,
     )
